@@ -42,14 +42,6 @@ pub fn vx_map_retain_keys<V, F: Fn(&String) -> bool>(m: &mut HashMap<String, V>,
 // `&str == String`: same characters
 #[verifier::external_body]
 pub fn vx_str_eq_string(a: &str, b: &String) -> (r: bool) ensures r == (a@ == b@) { unimplemented!() }
-impl DnsRecordDyn {
-    // the SRV view of a boxed record: its target host
-    #[verifier::external_body]
-    pub fn as_srv_host(&self) -> (r: Option<&DnsSrv>)
-        ensures r is Some <==> payload_srv_host(self.payload()) is Some, r is Some ==> r->Some_0.host@ == payload_srv_host(self.payload())->Some_0,
-    { unimplemented!() }
-}
-pub uninterp spec fn payload_srv_host(p: int) -> Option<Seq<char>>;
 // iteration order of the HashMap stand-in: every key exactly once, with its value (textbook; `iter()` states the first part)
 pub open spec fn entries_wf<V>(m: HashMap<String, V>) -> bool {
     (forall|i: int| 0 <= i < m.entries().len() ==> m@.contains_key((#[trigger] m.entries()[i]).0) && m@[m.entries()[i].0] == m.entries()[i].1)
